@@ -20,7 +20,8 @@ RULE = ("exhaustive matrix of cells = kind (string, date, date-time, uuid, integ
         "(none / 3.0 nullable / 3.1 type list / null union member / null enum member, where applicable) x default (none / valid) "
         "x position (model property, query, header, cookie parameter) x enum style x embedding (model cells: declared directly / in "
         "a model the generator processes twice / inherited from an allOf parent / declared untyped+required by a parent and refined "
-        "by the child; parameter cells: on the operation / once at path-item level for two operations / once under "
+        "by the child / declared directly while another schema composes the model and promotes its optional properties to required; "
+        "parameter cells: on the operation / once at path-item level for two operations / once under "
         "components.parameters referenced by two operations - both operations are checked), packed 12 cells per document; plus "
         "Hypothesis-drawn random packs of cells (mixing neighbours). Every cell is non-trivial; distinct = the cell tuple; an "
         "evaluation = one cell checked (signature, absent, null, type, present clauses).")
@@ -103,7 +104,7 @@ def is_v31(cell):
     return cell["nullable"] == "typelist"
 
 
-MODEL_EMBED = ("plain", "reparsed", "inherited", "refined")
+MODEL_EMBED = ("plain", "reparsed", "inherited", "refined", "promoted_elsewhere")
 PARAM_EMBED = ("op", "pathlevel", "component")
 
 
@@ -199,6 +200,17 @@ def run(case, ctx):
             # each with the cell's schema without repeating 'required': the conjunction keeps both facts
             comps["HolderBase"] = {"type": "object", "properties": {k: {} for k in props}, **({"required": req} if req else {})}
             comps["Holder"] = {"allOf": [{"$ref": "#/components/schemas/HolderBase"}, {"type": "object", "properties": props}]}
+        elif embed == "promoted_elsewhere":
+            # another schema composes Holder and lists Holder's optional properties as required: that is a fact about the other
+            # schema only (declared before and after Holder in turn)
+            optional = [f"p{i}" for i, c in enumerate(model_cells) if not c["required"]]
+            promoter = {"allOf": [{"$ref": "#/components/schemas/Holder"}, {"type": "object", **({"required": optional} if optional else {})}]}
+            if len(model_cells) % 2:
+                comps["ZzPromoter"] = promoter
+                comps["Holder"] = holder
+            else:
+                comps["Holder"] = holder
+                comps["ZzPromoter"] = promoter
         elif embed == "reparsed":
             # an inline composition of a component declared *later* makes the generator process Holder a second time
             holder["properties"]["zzlate"] = {"allOf": [{"$ref": "#/components/schemas/ZzLate"}],
